@@ -124,13 +124,43 @@ func r5rStripParens(s string) string {
 				}
 			}
 		}
+		// a pair is redundant when it wraps a whole operand position: it directly follows an opening
+		// bracket / parenthesis or an argument separator and is directly followed by the closing one
+		// or the next separator: `f((a - b))`, `xs[(n - 1)]`, `g(a, (b + c))`
 		drop := -1
-		for i := 0; i+1 < len(s); i++ {
-			if s[i] == '(' && s[i+1] == '(' {
-				if m, ok := match[i]; ok && match[i+1] == m-1 {
-					drop = i + 1
+		for i := 0; i < len(s); i++ {
+			if s[i] != '(' {
+				continue
+			}
+			m, ok := match[i]
+			if !ok {
+				continue
+			}
+			before := byte(0)
+			for j := i - 1; j >= 0; j-- {
+				if s[j] != ' ' {
+					before = s[j]
 					break
 				}
+			}
+			after := byte(0)
+			for j := m + 1; j < len(s); j++ {
+				if s[j] != ' ' {
+					after = s[j]
+					break
+				}
+			}
+			opens := before == '(' || before == '[' || before == ','
+			closes := after == ')' || after == ']' || after == ','
+			if i == 0 {
+				opens = m == len(s)-1 // the whole string
+				closes = opens
+			}
+			if opens && closes {
+				// `f(` … `)`: the parenthesis after a callee name is a call, not grouping — `before` is then
+				// an identifier character, never one of the openers, so this is a grouping pair
+				drop = i
+				break
 			}
 		}
 		if drop < 0 {
